@@ -17,8 +17,9 @@ Variable R : st -> st -> Prop.
 Hypothesis Rrefl : forall s, R s s.
 Hypothesis Rtrans : forall a b c, R a b -> R b c -> R a c.
 Hypothesis H_read : forall q, pres R (stmt_read sd q).
-Hypothesis H_insert : forall r, pres R (db_insert sd r).
-Hypothesis H_update : forall id c v, pres R (db_update sd id c v).
+Hypothesis H_insert : forall r, pres R (db_insert cfg sd r).
+Hypothesis H_update : forall id c v, pres R (db_update cfg sd id c v).
+Hypothesis H_update_cols : forall id l, pres R (db_update_cols cfg sd id l).
 Hypothesis H_delete : forall id, pres R (db_delete sd id).
 Hypothesis H_upd : forall o f, keeps_id f -> pres R (upd_inst sd o f).
 Hypothesis H_new : forall i, pres R (new_inst sd i).
@@ -28,13 +29,14 @@ Hypothesis H_push : forall s x, (x = None \/ exists o, x = Some (sd, o)) -> R s 
 Hypothesis H_drop : forall s h o, nth h (slots s) None = Some (sd, o) -> R s (with_slots s (set_nth h None (slots s))).
 
 Ltac pstep := pres_step.
-Ltac psolve := repeat (first [ pstep | apply H_read | apply H_insert | apply H_update | apply H_delete | apply H_new | apply H_cch
+Ltac psolve := repeat (first [ pstep | apply H_read | apply H_insert | apply H_update | apply H_update_cols | apply H_delete | apply H_new | apply H_cch
                              | (apply H_upd; intros ?; reflexivity) ]).
 
 Lemma kid_vals v : keeps_id (fun i => i_with_vals i v). Proof. intros i; reflexivity. Qed.
 Lemma kid_expired v : keeps_id (fun i => i_with_expired i v). Proof. intros i; reflexivity. Qed.
 Lemma kid_obsolete v : keeps_id (fun i => i_with_obsolete i v). Proof. intros i; reflexivity. Qed.
 Lemma kid_set_val c v : keeps_id (set_val c v). Proof. intros i; reflexivity. Qed.
+Lemma kid_pending v : keeps_id (fun i => i_with_pending i v). Proof. intros i; reflexivity. Qed.
 
 Lemma fp_cull roots : pres R (cull cfg sd roots).
 Proof. unfold cull. psolve. Qed.
@@ -61,12 +63,16 @@ Proof.
   unfold so_get. psolve; try apply fp_cache_get; try apply fp_select_init; try apply fp_cache_put;
     try apply fp_db_select_one.
 Qed.
-Lemma fp_so_read o c : pres R (so_read sd o c).
+Lemma fp_so_read o c : pres R (so_read cfg sd o c).
 Proof. unfold so_read. psolve; try apply fp_select_init; try apply fp_db_select_one. Qed.
-Lemma fp_so_set o c v : pres R (so_set sd o c v).
+Lemma fp_so_set o c v : pres R (so_set cfg sd o c v).
 Proof. unfold so_set. psolve. Qed.
-Lemma fp_so_sync o : pres R (so_sync sd o).
-Proof. unfold so_sync. psolve; try apply fp_select_init; try apply fp_db_select_one. Qed.
+Lemma fp_so_sync_update o : pres R (so_sync_update cfg sd o).
+Proof. unfold so_sync_update. psolve. Qed.
+Lemma fp_so_reload o : pres R (so_reload sd o).
+Proof. unfold so_reload. psolve; try apply fp_select_init; try apply fp_db_select_one. Qed.
+Lemma fp_so_sync o : pres R (so_sync cfg sd o).
+Proof. unfold so_sync. psolve; try apply fp_so_sync_update; apply fp_so_reload. Qed.
 Lemma fp_so_expire o : pres R (so_expire cfg sd o).
 Proof.
   unfold so_expire. pstep; [psolve|]. pstep; [psolve|]. pstep; [psolve|]. psolve. apply fp_cache_expire.
@@ -136,6 +142,8 @@ Proof.
     refine ((_ : pres R (bind _ _)) s). psolve. apply fp_so_expire.
   - cbn [run_op]. apply fp_handle_op. intros [sd' x] E. rewrite E in Hs. inversion Hs; subst. cbn [fst snd].
     refine ((_ : pres R (bind _ _)) s). psolve. apply fp_so_sync.
+  - cbn [run_op]. apply fp_handle_op. intros [sd' x] E. rewrite E in Hs. inversion Hs; subst. cbn [fst snd].
+    refine ((_ : pres R (bind _ _)) s). psolve. apply fp_so_sync_update.
   - (* drop *) cbn [run_op]. unfold bind, modify, ret. cbn.
     destruct (nth h (slots s) None) as [[sd' x]|] eqn:E; [|discriminate].
     inversion Hs; subst. eapply H_drop. exact E.
